@@ -710,13 +710,20 @@ pub fn run_history(rng: &mut Rng, mix: Mix) -> Outcome {
             if let Ok(d) = check_view(&pp) {
                 if let Err(fd) = check_question_getters(&mut pp, &d, step) {
                     run.findings.push(fd);
-                } else if strict_state(pp.packet()) && (mix.want == Prop::C09 || run.rng.chance(1, 3)) {
-                    let b = pp.packet().to_vec();
-                    if let Err(e) = super::c03::read_back(&mut pp, &d, &b) {
-                        let prop = if mix.want == Prop::C09 { Prop::C09 } else { Prop::C08 };
-                        let cls: String = e.split(':').next().unwrap_or("").chars().filter(|c| !c.is_ascii_digit()).collect();
-                        run.findings.push(f(prop, format!("read-back|{}", cls), format!("after step {}: the iterators do not hand out what the bytes hold: {}", step, e)));
-                    }
+                }
+            }
+        }
+        let do_read_back = match mix.want {
+            Prop::C09 => run.findings.iter().all(|fd| fd.prop != Prop::C09),
+            Prop::C08 => run.findings.is_empty() && run.rng.chance(1, 3),
+            Prop::C10 => false,
+        };
+        if do_read_back && pp.packet.is_some() && strict_state(pp.packet()) {
+            let b = pp.packet().to_vec();
+            if let Ok(d) = refparse(&b, STRICT) {
+                if let Err(e) = super::c03::read_back(&mut pp, &d, &b) {
+                    let cls: String = e.split(':').next().unwrap_or("").chars().filter(|c| !c.is_ascii_digit()).collect();
+                    run.findings.push(f(mix.want, format!("read-back|{}", cls), format!("after step {}: the iterators do not hand out what the bytes hold: {}", step, e)));
                 }
             }
         }
